@@ -75,7 +75,11 @@ def main(argv=None) -> int:
             # recorded crash of the whole check inside library code: re-run the check
             try:
                 res = mod.run(data.get("tier", tier), data.get("seed", seed))
-                v = (res.get("violations") or [None])[0]
+                vs = res.get("violations") or []
+                if data.get("context_dependent"):
+                    want = json.dumps(_jsonable(data.get("sig")), sort_keys=True)
+                    vs = [x for x in vs if json.dumps(_jsonable(x.get("sig")), sort_keys=True) == want]
+                v = vs[0] if vs else None
             except Exception:
                 v = {"sig": data.get("sig"), "what": traceback.format_exc()[-3000:]}
         else:
@@ -116,6 +120,7 @@ def main(argv=None) -> int:
     n_known = 0
     reported_known = set()
     lines = []
+    pending_ctx = []
     for key, v in classes.items():
         f = kf.match(known, v)
         if f is not None:
@@ -134,12 +139,33 @@ def main(argv=None) -> int:
                 except Exception:
                     again = "error:" + traceback.format_exc()
                 if again is None:
-                    print(f"HARNESS-NONDETERMINISM property={pid} a violation did not reproduce on replay:")
-                    print(json.dumps(_jsonable(v), indent=1)[:3000])
-                    return 2
+                    # not reproducible in isolation: either harness nondeterminism, or the failure depends on what the
+                    # process did before (state leaking between cases).  Decide by running the whole check once more.
+                    pending_ctx.append((key, v))
+                    n_new -= 1
+                    continue
             path = write_replay(pid, v)
             lines.append(f"VIOLATION property={pid} replay={path}")
             lines.append("  " + json.dumps(_jsonable({k: v[k] for k in v if k in ("sig", "history", "what")}))[:1500])
+    if pending_ctx:
+        try:
+            res2 = mod.run(tier, seed)
+            sigs2 = {json.dumps(_jsonable(x.get("sig")), sort_keys=True) for x in res2.get("violations", [])}
+        except Exception:
+            sigs2 = set()
+        for key, v in pending_ctx:
+            if key not in sigs2:
+                print(f"HARNESS-NONDETERMINISM property={pid} a violation reproduced neither on replay nor in a second complete run:")
+                print(json.dumps(_jsonable(v), indent=1)[:3000])
+                return 2
+            v = dict(v)
+            v["context_dependent"] = True
+            v["crash"] = True  # replay = run the whole check again and look for this signature
+            v["tier"], v["seed"] = tier, seed
+            n_new += 1
+            path = write_replay(pid, v)
+            lines.append(f"VIOLATION property={pid} replay={path}")
+            lines.append("  (fails only in the context of the whole run - state leaking between cases) " + json.dumps(_jsonable({k: v[k] for k in v if k in ("sig", "what")}))[:1200])
     cov = res["coverage"]
     ev.write(
         pid,
